@@ -29,7 +29,9 @@ Definition new_itier (name : text) (l : list interval) (mn mx : option Z) : res 
 
 Definition new_ptier (name : text) (l : list point) (mn mx : option Z) : res ptier :=
   let l' := homog_p l in
-  match zmin_list (map ptime l' ++ opt_list mn), zmax_list (map ptime l' ++ opt_list mx) with
+  (* one list of candidate times: entries, minT and maxT together *)
+  let all := map ptime l' ++ opt_list mn ++ opt_list mx in
+  match zmin_list all, zmax_list all with
   | Some a, Some b => Ok (mkPT name l' a b)
   | _, _ => Err TimelessTier
   end.
@@ -123,7 +125,7 @@ Definition resort_span_i (name : text) (l : list interval) (mn mx : Z) : itier :
   let mx' := match last_opt s with Some il => if mx <? iend il then iend il else mx | None => mx end in
   mkIT name s mn' mx'.
 
-Definition insert_i (t : itier) (e : interval) (mode : insmode) : res itier :=
+Definition insert_i_core (t : itier) (e : interval) (mode : insmode) : res itier :=
   do ct <- crop_i t (istart e) (iend e) Lax false;
   let ms := ients ct in
   do l' <-
@@ -140,6 +142,10 @@ Definition insert_i (t : itier) (e : interval) (mode : insmode) : res itier :=
      end;
   Ok (resort_span_i (iname t) l' (imin t) (imax t)).
 
+(* the entry is normalised like the constructor normalises entries (label stripped) *)
+Definition insert_i (t : itier) (e : interval) (mode : insmode) : res itier :=
+  insert_i_core t (strip_i e) mode.
+
 (* did the call produce a collision report (warning text / exception in the
    undocumented 'error' reporting mode)? *)
 Definition insert_i_collides (t : itier) (e : interval) : bool :=
@@ -155,7 +161,7 @@ Fixpoint find_time (x : Z) (l : list point) : option point :=
   | p :: l' => if ptime p =? x then Some p else find_time x l'
   end.
 
-Definition insert_p (t : ptier) (e : point) (mode : insmode) : res ptier :=
+Definition insert_p_core (t : ptier) (e : point) (mode : insmode) : res ptier :=
   do l' <-
      match find_time (ptime e) (pents t) with
      | None => Ok (pents t ++ [e])
@@ -175,6 +181,9 @@ Definition insert_p (t : ptier) (e : point) (mode : insmode) : res ptier :=
   let mn' := match s with p0 :: _ => if ptime p0 <? pmin t then ptime p0 else pmin t | [] => pmin t end in
   let mx' := match last_opt s with Some pl => if pmax t <? ptime pl then ptime pl else pmax t | None => pmax t end in
   Ok (mkPT (pname t) s mn' mx').
+
+Definition insert_p (t : ptier) (e : point) (mode : insmode) : res ptier :=
+  insert_p_core t (strip_p e) mode.
 
 (* ------------------------------------------------------------------ *)
 (* eraseRegion                                                         *)
